@@ -25,7 +25,7 @@ Require Aiuti.Case_C02.
    one object, of different objects, of different processes alike. *)
 Theorem mutex_threads_objects_procs :
   forall (ocfg : list (pid * bool * tmo)) (tcfg : list (pid * list call))
-         (fl : list (skind * nat)) (evs : list ev) (t1 t2 : tid),
+         (fl : list (skind * nat * bool)) (evs : list ev) (t1 t2 : tid),
     let s := run (init_cfg ocfg tcfg fl) evs in
     viol s = false -> inside_b s t1 = true -> inside_b s t2 = true -> t1 = t2.
 Proof. exact mutex_lemma. Qed.
@@ -68,17 +68,32 @@ Theorem mutex_for_contract_respecting_programs :
 Proof. exact mutex_static_lemma. Qed.
 Print Assumptions mutex_for_contract_respecting_programs.
 
-(* The trace monitor used on implementation traces (Case_C02.ok: at every entry exactly
-   one thread is inside and its object is locked, at every exit nobody is left inside)
-   accepts every trace the model can produce within the contract, for ALL configurations,
-   fault scripts, programs and controller traces: on any case where the implementation's
+(* The trace monitor used on implementation traces (Case_C02.ok: every log entry reports at
+   most one thread inside, exactly one on entry and none left on exit, the object locked;
+   and the log is self-consistent as a sequence of enter / exit events) accepts every trace
+   the model can produce within the contract, for ALL configurations, fault scripts, programs
+   and controller traces of steps and clock advances: on any case where the implementation's
    occupancy log equals the model's, the monitor cannot raise a false alarm. *)
 Theorem monitor_complete :
   forall cfg fl progs trace r0 o0 f0 e0 k0,
     let '(g, rs, oc, fin, ec, vi) := Case_C02.model_trace (Case_C02.CSched cfg fl progs trace r0 o0 f0 e0 k0) in
-    vi = false -> Case_C02.ok (Case_C02.CSched cfg fl progs trace rs oc fin ec 0) = true.
+    vi = false -> nocrash trace = true -> Case_C02.ok (Case_C02.CSched cfg fl progs trace rs oc fin ec 0) = true.
 Proof. exact monitor_complete_lemma. Qed.
 Print Assumptions monitor_complete.
+
+(* Model-free soundness: what acceptance means for an OBSERVED log.  If the monitor accepts a
+   case (and the run was inside the contract), then no kernel/table mismatch was seen, and at
+   NO point of the observed occupancy log are two holders inside: the set of threads inside
+   after any prefix of the log — computed from the enter / exit events alone, not from the
+   harness' counter — has no duplicates and at most one element. *)
+Theorem monitor_sound :
+  forall cfg fl progs trace results occ final endcode km,
+    Case_C02.ok (Case_C02.CSched cfg fl progs trace results occ final endcode km) = true ->
+    km = 0 /\
+    (snd (Case_C02.model_trace (Case_C02.CSched cfg fl progs trace results occ final endcode km)) = false ->
+     forall k, NoDup (inside_after (firstn k occ)) /\ length (inside_after (firstn k occ)) <= 1).
+Proof. exact monitor_sound_C02_lemma. Qed.
+Print Assumptions monitor_sound.
 
 (* The contract hypothesis is needed (and so is not vacuous): if a thread that holds
    nothing releases a plain (non-reentrant) lock that another thread holds, two
@@ -106,7 +121,7 @@ Definition ex_tcfg : list (pid * list call) :=
    [(0, [acq 0; CRel 0 false]);
     (1, [CAcq 1 MWith true TNone 2%N 1; CRel 1 false; CAcq 1 MPlain false TNone 2%N 2;
          CAcq 1 MPlain true TNone 2%N 0; CRel 1 true])].
-Definition ex_cfg := init_cfg ex_ocfg ex_tcfg [(KOpen, 3)].
+Definition ex_cfg := init_cfg ex_ocfg ex_tcfg [(KOpen, 3, false)].
 Example cfg_ok_example : cfg_ok ex_ocfg ex_tcfg = true.
 Proof. vm_compute. reflexivity. Qed.
 Definition ex_prefix :=
